@@ -138,4 +138,18 @@ TEXT = {
                  "checked on the handler and its two real users. Found the resize-during-read in cell_divider::run (fixed). Sampling of schedules, not enumeration.",
         "note": "Trusted: hooks H3 (23 added lines). No happens-before race detector is available for this code base (clang cannot compile it; g++ TSan + libgomp is unsound).",
     },
+    "C10": {
+        "technique": "rapidcheck scenario generation driving the whole pipeline in sanitized child processes (ASan, UBSan, _GLIBCXX_ASSERTIONS), heap-fill differential for uninitialised reads, valgrind pass (thorough), regression replay of every memory finding",
+        "level": "Whole simulations (file parsing to destructors) with divisions, removals, contacts, remeshing and output, 1-16 threads, under "
+                 "the sanitizers in four compile-time configurations; results must not depend on the heap fill byte. Together with the other "
+                 "engines (all run under the same sanitizers) it found 9 memory-safety defects, all fixed. Exploration; schedules sampled.",
+        "note": "Trusted: the sanitizers. Liveness is not part of this property. The digest ignores the wall-clock column of the statistics.",
+    },
+    "C17": {
+        "technique": "deterministic exhaustive single-fault enumeration over valid input templates + coverage-guided fuzzing (libFuzzer) with semantic oracles, both through the real start-up path under ASan/UBSan",
+        "level": "The single-fault space of the templates is enumerated completely (about 10 000 mutants in the quick tier, 17 000 in the thorough "
+                 "tier); three fuzz targets explore multi-fault and byte-level inputs. Found 7 start-up defects (6 fixed, 1 recorded as known "
+                 "finding KF1: resource use grows with (extent / l_min)^2 independent of the input size).",
+        "note": "Trusted: the child protocol (BEGIN/DONE lines) and the sanitizers. 'Loops forever' is decided as 'exceeds 60 s three times'.",
+    },
 }
